@@ -3,7 +3,7 @@
     of the handler's blocking read calls (Model/Lifecycle.v). *)
 From Coq Require Import String Ascii List Bool ZArith NArith Arith.
 From Raven Require Import Base.GoStr Model.Lifecycle Model.LifecycleSrv Spec.Lifecycle
-  Model.LifecycleWrite Model.LifecycleSaslLoop Proof.Lifecycle Proof.LifecycleSrv Proof.LifecycleWrite Proof.LifecycleSaslLoop.
+  Model.LifecycleWrite Model.LifecycleSaslLoop Model.LifecycleAuth Proof.LifecycleAuth Gen.LifecycleFacts Proof.Lifecycle Proof.LifecycleSrv Proof.LifecycleWrite Proof.LifecycleSaslLoop.
 Import ListNotations.
 
 (** (a) IMAP, client gone. From EVERY state — IDLE included since fixes C20-1
@@ -195,6 +195,55 @@ Theorem c20_sasl_loop_agrees : forall (shut : bool) (s : tstate) (dt : N) (l : s
 Proof. exact tstep_agrees. Qed.
 Print Assumptions c20_sasl_loop_agrees.
 
+(** The call to the authentication backend (Model/LifecycleAuth.v). An
+    http.Client with Client.Timeout = T is back within T whatever the backend
+    does: never accepts, accepts and never answers, answers its headers and
+    stalls in the body, trickles an endless body, closes in the middle, answers. *)
+Theorem c20_auth_call_bounded : forall (c : http_client) (T : N) (b : backend),
+  hc_total c = Some T -> exists t, call_time c b = Some t /\ (t <= T)%N.
+Proof. exact call_bounded. Qed.
+Print Assumptions c20_auth_call_bounded.
+
+(** handler lifetime with an auth call in flight when the client goes away or
+    falls silent: at most the auth bound plus what the theorems above bound —
+    for EVERY state the command leaves behind and EVERY backend behaviour *)
+Theorem c20_imap_lifetime_bounded : forall (c : http_client) (T : N) (b : backend) (s : istate),
+  hc_total c = Some T ->
+  exists t r, call_time c b = Some t /\ i_silence_ms 3 s = Some r /\ (t + r <= T + imap_silence_bound)%N.
+Proof. exact imap_lifetime_bounded. Qed.
+Print Assumptions c20_imap_lifetime_bounded.
+
+Theorem c20_sasl_lifetime_bounded : forall (c : http_client) (T : N) (b : backend),
+  hc_total c = Some T -> exists t, call_time c b = Some t /\ (t + 30000 <= T + 30000)%N.
+Proof. exact sasl_lifetime_bounded. Qed.
+Print Assumptions c20_sasl_lifetime_bounded.
+
+(** a backend that never delivers its headers is a refusal *)
+Theorem c20_no_headers_no_success : forall (c : http_client) (b : backend),
+  snd (headers_at c b) = false -> call_ok c b = false.
+Proof. exact no_headers_no_success. Qed.
+Print Assumptions c20_no_headers_no_success.
+
+(** the implicit-TLS port (fix C20-9): no handshake, no session — within the 30 s handshake deadline *)
+Theorem c20_ssl_no_handshake_ends : forall e : event, is_nodata e = true -> i_done (fst (istep i_init_ssl e)) = true.
+Proof. exact ssl_no_handshake_ends. Qed.
+Print Assumptions c20_ssl_no_handshake_ends.
+
+(** for ANY facts table satisfying [facts_ok]: both auth paths are bounded by
+    10 s and the handshake deadline is 30 s — and the table read from the tree
+    under test satisfies it *)
+Theorem c20_facts_bound : forall (f : lifecycle_facts) (b : backend),
+  facts_ok f = true ->
+  (exists t, call_time (client_of (lf_imap_auth_timeout f)) b = Some t /\ (t <= auth_timeout)%N) /\
+  (exists t, call_time (client_of (lf_sasl_auth_timeout f)) b = Some t /\ (t <= auth_timeout)%N) /\
+  lf_ssl_handshake_deadline f = Some 30000%N.
+Proof. exact facts_bound. Qed.
+Print Assumptions c20_facts_bound.
+
+Theorem facts_ok_now : facts_ok Gen.LifecycleFacts.table = true.
+Proof. vm_compute. reflexivity. Qed.
+Print Assumptions facts_ok_now.
+
 (** a second lmtp.Shutdown returns and changes nothing (fix C20-3); no history makes a service panic *)
 Theorem c20_lmtp_shutdown_idempotent : forall s : srv,
   panicked s = false -> chan_closed s = true -> sstep_srv SvcLMTP s Shutdown = (s, [OShutReturned]).
@@ -228,6 +277,24 @@ Proof. exact seeded_unbounded. Qed.
 Example c20_tree_loop_on_pings :
   trun tree_loop true t_init [(29999%N, ping); (29999%N, ping); (29999%N, ping)] = (mk_t true 0, 30000%N, 0).
 Proof. exact tree_on_pings. Qed.
+
+(** without a bound on the body read the wedged backend keeps the handler for
+    ever (seeded change C20-3: per-phase transport timeouts + draining the body),
+    and so did a backend that never answers before fix C20-8 (no timeout at all) *)
+Example c20_seeded_client_wedged : forall th : N, (th <= auth_timeout)%N ->
+  call_time seeded_client (BHeadersStall th) = None.
+Proof. exact seeded_client_wedged. Qed.
+
+Example c20_seeded_client_trickle : forall th : N, (th <= auth_timeout)%N ->
+  call_time seeded_client (BTrickle th) = None.
+Proof. exact seeded_client_trickle. Qed.
+
+Example c20_unbounded_client_wedged :
+  call_time unbounded_client BAcceptSilent = None /\ call_time unbounded_client BNeverAccepts = None.
+Proof. exact unbounded_client_wedged. Qed.
+
+Example c20_ssl_silence_time : i_silence_ms 3 i_init_ssl = Some 30000%N.
+Proof. exact ssl_silence_time. Qed.
 
 Example c20_double_shutdown_returns :
   snd (srv_run SvcLMTP srv_init [Shutdown; Shutdown]) = [OShutReturned; OShutReturned].
